@@ -212,6 +212,19 @@ CLAIMED["C12"] = dict(
         "Two defects repaired (double counting of max volume counts, deletions of unregistered volumes). " + TRUST,
    design="DESIGN.md §4 C12")
 
+CLAIMED["C17"] = dict(
+   text="Proof-level kernel (quick tier): ViewFromVisibleIntervals is verified with an inductive loop invariant for any number of visible intervals - every view is a "
+        "non-empty part of one visible interval inside the requested range and reads the chunk at exactly the position that interval shows there (same file id, same "
+        "position shift), including the overflow cases of offset+size; mergeIntoManifest: the manifest chunk spans exactly from the smallest offset to the furthest end "
+        "of the chunks it replaces (inductive min/max invariants); ChunkReadAt.doReadAt on a range no chunk covers: the bytes reported as read are zeros and their number "
+        "is the part of the buffer below the file size. Thorough tier adds MergeIntoVisibles as a bounded check (see note).",
+   note="MergeIntoVisibles (every interval of the result is the new chunk's own interval or a piece of an old interval outside the new chunk's range showing the same "
+        "bytes) is checked BOUNDED - both loops unrolled for at most one old interval, all offsets/sizes/ids symbolic - in the thorough tier only (about 8 minutes); its "
+        "inductive invariants need an existential witness per element and no solver discharged them, so it is not counted as proved; the seeded change C17-m1 is caught "
+        "by that bounded check only. Not decided: doReadAt with chunks (copy offsets), NonOverlappingVisibleIntervals' sort order and ResolveChunkManifest, "
+        "doMaybeManifestize batching, completeness of the overlay (every uncovered old byte stays visible). One defect repaired (holes not zeroed). " + TRUST,
+   design="DESIGN.md §4 C17")
+
 NA = {
  "C03":"crash-point property over byte-level truncation of two persistent files; no per-function contract within reach decides it (DESIGN §4 C03)",
  "C10":"needs inductive tree predicates and cardinality reasoning over interface-typed nodes in pointer maps with randomised picking (DESIGN §4 C10)",
